@@ -1,20 +1,19 @@
 import PraatModel.Ops
 import PraatModel.Lemmas.Sort
 
-/-! # deleteEntry by tolerant equality, under the separation hypothesis -/
+/-! # deleteEntry: exact match first, tolerant fallback
 
-/-- no two distinct entries are equal under `Interval.__eq__` (the explicit hypothesis under which the
-code's tolerant `list.index` coincides with exact search) -/
+`deleteEntry` of a MEMBER removes exactly that member, unconditionally (`deleteIv_of_mem`, `deletePt_of_mem`,
+`deleteIvs_of_mem`).  The tolerant `Interval.__eq__` only matters for an argument that is not in the list
+(`deleteIv_not_mem`, `deleteIv_sublist`). -/
+
+/-- no two distinct entries are equal under `Interval.__eq__`.  No theorem about deleting a member needs this any more
+(it was the hypothesis under which the former tolerant `list.index` coincided with exact search); it is kept as a
+description of the tiers on which the tolerant fallback of `deleteEntry` is unambiguous. -/
 def NoClose (es : List (Iv Int)) : Prop := ∀ a ∈ es, ∀ b ∈ es, ivEq a b = true → a = b
 
 theorem ivEq_self (a : Iv Int) : ivEq a a = true := by
   simp [ivEq, Int.close9_self]
-
-theorem NoClose.tail {x : Iv Int} {xs : List (Iv Int)} (h : NoClose (x :: xs)) : NoClose xs :=
-  fun a ha b hb hab => h a (List.mem_cons_of_mem _ ha) b (List.mem_cons_of_mem _ hb) hab
-
-theorem NoClose.sublist {l l' : List (Iv Int)} (h : NoClose l) (hs : ∀ x ∈ l', x ∈ l) : NoClose l' :=
-  fun a ha b hb hab => h a (hs a ha) b (hs b hb) hab
 
 theorem ivSame_iff (a b : Iv Int) : ivSame a b = true ↔ a = b := by
   cases a; cases b
@@ -60,13 +59,9 @@ theorem eraseSameIv_none (es : List (Iv Int)) (x : Iv Int) (hx : x ∉ es) : era
       · exact absurd ((ivSame_iff e x).1 h) he
     simp only [eraseSameIv, hs, Bool.false_eq_true, if_false, ih (fun h => hx (List.mem_cons_of_mem _ h)), Option.map]
 
-/-- **deleteEntry of a member removes exactly that member** — whatever else in the tier is close to it (this needed the
-separation hypothesis `NoClose` before the repair of `deleteEntry` in /repo; `_hn` is kept for the callers) -/
-theorem deleteIv_of_mem (es : List (Iv Int)) (x : Iv Int) (_hn : NoClose es) (hx : x ∈ es) :
-    deleteIv es x = .ok (es.erase x) := by
-  simp only [deleteIv, eraseSameIv_of_mem es x hx]
-
-theorem deleteIv_of_mem' (es : List (Iv Int)) (x : Iv Int) (hx : x ∈ es) :
+/-- **deleteEntry of a member removes exactly that member** — whatever else in the tier is close to it (no separation
+hypothesis: the exact search of the repaired `deleteEntry` finds the member before the tolerant fallback is tried) -/
+theorem deleteIv_of_mem (es : List (Iv Int)) (x : Iv Int) (hx : x ∈ es) :
     deleteIv es x = .ok (es.erase x) := by
   simp only [deleteIv, eraseSameIv_of_mem es x hx]
 
@@ -196,18 +191,17 @@ theorem nodup_of_wf (es : List (Iv Int)) (hp : Pos es) (hd : SetDisj es) : es.No
     omega
 
 /-- deleting a duplicate-free list of members one after the other = erasing them -/
-theorem deleteIvs_of_mem (es ms : List (Iv Int)) (hn : NoClose es) (hnd : es.Nodup)
+theorem deleteIvs_of_mem (es ms : List (Iv Int)) (hnd : es.Nodup)
     (hms : ∀ m ∈ ms, m ∈ es) (hmd : ms.Nodup) :
     deleteIvs es ms = .ok (ms.foldl (fun acc m => acc.erase m) es) := by
   induction ms generalizing es with
   | nil => rfl
   | cons m ms ih =>
     simp only [deleteIvs, List.foldlM_cons, List.foldl_cons] at *
-    rw [deleteIv_of_mem es m hn (hms m (by simp))]
+    rw [deleteIv_of_mem es m (hms m (by simp))]
     simp only [bind, Except.bind]
     have hmd' := List.nodup_cons.1 hmd
     apply ih (es.erase m)
-    · exact hn.sublist (fun x hx => List.mem_of_mem_erase hx)
     · exact hnd.erase m
     · intro m' hm'
       rw [hnd.mem_erase_iff]
